@@ -24,6 +24,10 @@ mod c05fmt;
 mod price;
 mod c09;
 mod c10;
+mod imptree;
+mod camtgen;
+mod c18;
+mod c15;
 
 pub struct Opts {
     pub seed: u64,
@@ -99,6 +103,8 @@ fn main() {
         "fmt-worker" => fmtworker::serve(),
         "c09" => c09::run(&o),
         "c10" => c10::run(&o),
+        "c18" => c18::run(&o),
+        "c15" => c15::run(&o),
         _ => {
             eprintln!("unknown property {}", prop);
             std::process::exit(2);
